@@ -135,8 +135,21 @@ def run(sc, workdir, nextest_bin=NEXTEST):
     res = Result()
     res.cmd = cmd; res.workdir = workdir; res.junit = junit
     t0 = now_ns()
-    proc = subprocess.Popen(cmd, cwd=WS, env=env, stdout=open(os.path.join(workdir, "stdout.txt"), "wb"), stderr=open(os.path.join(workdir, "stderr.txt"), "wb"),
+    stall = getattr(sc, "stall_stderr_s", 0)
+    errf = open(os.path.join(workdir, "stderr.txt"), "wb")
+    proc = subprocess.Popen(cmd, cwd=WS, env=env, stdout=open(os.path.join(workdir, "stdout.txt"), "wb"), stderr=(subprocess.PIPE if stall else errf),
                             stdin=subprocess.DEVNULL, start_new_session=True)
+    drain = None
+    if stall:
+        # a reader that does not read for `stall` seconds: nextest's writes to its terminal block once the pipe is full
+        def drainer():
+            time.sleep(stall)
+            while True:
+                b = proc.stderr.read(65536)
+                if not b: break
+                errf.write(b)
+            errf.flush()
+        drain = threading.Thread(target=drainer, daemon=True); drain.start()
     res.pid = proc.pid
     sent = []
     stop = threading.Event()
@@ -202,6 +215,8 @@ def run(sc, workdir, nextest_bin=NEXTEST):
         time.sleep(0.003)
     t1 = now_ns()
     stop.set(); th.join(timeout=1)
+    if drain is not None: drain.join(timeout=5)
+    errf.close()
     proc.returncode = 0
     res.hung = getattr(res, "hung", False)
     res.t0, res.t1 = t0, t1
